@@ -233,7 +233,7 @@ func thorough(c *core.Ctx, ch *Check, o Options) {
 	}
 	exe, _ := os.Executable()
 	results := make([]varRes, len(todo))
-	sem := make(chan struct{}, 4)
+	sem := make(chan struct{}, 8)
 	done := make(chan int, len(todo))
 	for i, d := range todo {
 		go func(i int, d string) {
@@ -250,42 +250,7 @@ func thorough(c *core.Ctx, ch *Check, o Options) {
 				}
 				r.Summary = m.Summary
 			}
-			tmp, err := os.MkdirTemp("", "sfvariant-")
-			if err != nil {
-				results[i] = r
-				return
-			}
-			defer os.RemoveAll(tmp)
-			scratch := filepath.Join(tmp, "repo")
-			// copy of the current working tree (without .git)
-			cp := exec.Command("rsync", "-a", "--exclude", ".git", o.Repo+"/", scratch+"/")
-			if out, err := cp.CombinedOutput(); err != nil {
-				r.Report = "copy failed: " + string(out)
-				results[i] = r
-				return
-			}
-			ap := exec.Command("git", "apply", "--whitespace=nowarn", filepath.Join(d, "patch.diff"))
-			ap.Dir = scratch
-			if out, err := ap.CombinedOutput(); err != nil {
-				r.Report = "patch does not apply to the current tree: " + strings.TrimSpace(string(out))
-				results[i] = r
-				return
-			}
-			r.Applied = true
-			run := exec.Command(exe, "-property", o.Prop, "-tier", "quick", "-repo", scratch, "-verif", o.Verif, "-no-evidence")
-			out, err := run.CombinedOutput()
-			if err != nil {
-				r.Detected = true
-				for _, l := range strings.Split(string(out), "\n") {
-					if strings.HasPrefix(l, "  ") {
-						r.Report = strings.ReplaceAll(strings.TrimSpace(l), scratch+"/", "")
-						if len(r.Report) > 300 {
-							r.Report = r.Report[:300] + "…"
-						}
-						break
-					}
-				}
-			}
+			r.Applied, r.Detected, r.Report = replayPatch(exe, o, filepath.Join(d, "patch.diff"))
 			results[i] = r
 		}(i, d)
 	}
@@ -304,7 +269,85 @@ func thorough(c *core.Ctx, ch *Check, o Options) {
 	c.Extra["variants"] = results
 	c.Extra["variants_applied"] = applied
 	c.Extra["variants_detected"] = detected
-	fmt.Printf("sfcheck %s thorough: %d configurations; sensitivity: %d seeded changes applied to a scratch copy of the current tree, %d detected\n", o.Prop, len(cfgs), applied, detected)
+	// ---- specificity: the behaviour-preserving patches of /verif/benign must not make this check report anything
+	type benRes struct {
+		Name    string `json:"name"`
+		Applied bool   `json:"applied"`
+		Alarm   bool   `json:"alarm"`
+		Report  string `json:"first_report,omitempty"`
+	}
+	bfiles, _ := filepath.Glob(filepath.Join(o.Verif, "benign", "*.diff"))
+	sort.Strings(bfiles)
+	bres := make([]benRes, len(bfiles))
+	bdone := make(chan int, len(bfiles))
+	bsem := make(chan struct{}, 8)
+	for i, f := range bfiles {
+		go func(i int, f string) {
+			bsem <- struct{}{}
+			defer func() { <-bsem; bdone <- i }()
+			r := benRes{Name: filepath.Base(f)}
+			r.Applied, r.Alarm, r.Report = replayPatch(exe, o, f)
+			bres[i] = r
+		}(i, f)
+	}
+	for range bfiles {
+		<-bdone
+	}
+	bApplied, bAlarms := 0, 0
+	var alarmed []benRes
+	for _, r := range bres {
+		if r.Applied {
+			bApplied++
+		}
+		if r.Alarm {
+			bAlarms++
+			alarmed = append(alarmed, r)
+		}
+	}
+	c.Extra["benign_applied"] = bApplied
+	c.Extra["benign_false_alarms"] = bAlarms
+	if len(alarmed) > 0 {
+		c.Extra["benign_alarmed"] = alarmed
+	}
+	fmt.Printf("sfcheck %s thorough: %d configurations; sensitivity: %d seeded changes applied to a scratch copy of the current tree, %d detected; specificity: %d behaviour-preserving patches applied, %d false alarms\n", o.Prop, len(cfgs), applied, detected, bApplied, bAlarms)
+	for _, r := range alarmed {
+		fmt.Printf("sfcheck %s thorough: NOTE the check reports on the behaviour-preserving patch %s (a defect of the check, not of the repository): %s\n", o.Prop, r.Name, r.Report)
+	}
+}
+
+// replayPatch applies a patch to a scratch copy of the current working tree and runs this property's quick check on it.
+func replayPatch(exe string, o Options, patch string) (applied, reported bool, report string) {
+	tmp, err := os.MkdirTemp("", "sfvariant-")
+	if err != nil {
+		return false, false, err.Error()
+	}
+	defer os.RemoveAll(tmp)
+	scratch := filepath.Join(tmp, "repo")
+	// copy of the current working tree (without .git)
+	cp := exec.Command("rsync", "-a", "--exclude", ".git", o.Repo+"/", scratch+"/")
+	if out, err := cp.CombinedOutput(); err != nil {
+		return false, false, "copy failed: " + string(out)
+	}
+	ap := exec.Command("git", "apply", "--whitespace=nowarn", patch)
+	ap.Dir = scratch
+	if out, err := ap.CombinedOutput(); err != nil {
+		return false, false, "patch does not apply to the current tree: " + strings.TrimSpace(string(out))
+	}
+	run := exec.Command(exe, "-property", o.Prop, "-tier", "quick", "-repo", scratch, "-verif", o.Verif, "-no-evidence")
+	out, err := run.CombinedOutput()
+	if err != nil {
+		reported = true
+		for _, l := range strings.Split(string(out), "\n") {
+			if strings.HasPrefix(l, "  ") {
+				report = strings.ReplaceAll(strings.TrimSpace(l), scratch+"/", "")
+				if len(report) > 300 {
+					report = report[:300] + "…"
+				}
+				break
+			}
+		}
+	}
+	return true, reported, report
 }
 
 // DumpFuncs prints the names of all functions and methods declared in the module's packages (used to regenerate
